@@ -43,6 +43,8 @@ def signature(cls, mode, kernel):
         return "%s|atomic-not-atomic|mode=%s" % (PROP, mode)
     if mode == "dpcpp" and ("atomic-block" in feats or "atomic-assign" in feats) and cls == "translation-does-not-compile":
         return "%s|atomic-block-does-not-compile|mode=dpcpp" % PROP
+    if mode == "openmp" and "atomic-mixed-forms" in feats and (cls == "data-race" or cls in ("output-mismatch:out1",)):
+        return "%s|mixed-atomic-forms|mode=openmp" % PROP
     if cls == "host-variable-not-passed-to-device-kernel":
         return "%s|host-variable-not-passed-to-device-kernel|mode=%s" % (PROP, mode)
     return "%s|%s|mode=%s|features=%s" % (PROP, cls, mode, ",".join(feats))
